@@ -63,6 +63,20 @@ P = {
          "(commit_kvrel). C13_F21_refuted: the witness of known finding F21. Tie: mixed and 8-22-call transactions vs model and serial L0 "
          "spec; read-after-write histories must equal the model and are attributed to F21 only when the failing call reads a structure "
          "written earlier in the same transaction.", "KNOWN FINDING F21 (read-your-own-writes) is reported as KNOWN-FINDING."),
+ "C14": ("Rocq theorems (ConcFacts, generic in state and result type, no bound on threads/transactions/steps): every interleaving the "
+         "RW lock allows is strictly serializable in lock-release order, a reader sees one unchanging state, a writer excludes everybody, "
+         "no deadlock; the purity hypothesis on read-only transactions is discharged for the engine model by TxFacts. Tie: 4-16 goroutines "
+         "on 1-2 databases under -race with injected yields; data-derived serial positions; the run is replayed as a serial trace by the "
+         "engine model and the L0 spec.", "PARTIAL: a data race in the Go memory-model sense cannot be exhibited by a Gallina model; the "
+         "race detector run is search, not proof."),
+ "C17": ("Rocq theorems: after fix 12b9f00 Merge runs under the write lock, i.e. it is a write transaction of the protocol model; the C14 "
+         "theorems give exclusion, strict serializability and deadlock-freedom with Merge among the transactions; C15 covers what the step "
+         "does. Tie: the C14 scenario with a goroutine calling Merge repeatedly, under -race, replayed serially by model and spec.",
+         "PARTIAL as C14. Lists are excluded from the concurrent-merge workload (known finding F14)."),
+ "C18": ("Rocq theorems: Backup's copy step is pure; while a reader is in progress the shared state does not change (ConcFacts), and the "
+         "copied directory opens with any options to identical indexes (reopen_preserves). Tie: generated histories followed by Backup with "
+         "the copy parked on a FIFO while a writer tries to commit (must block), then the copy is opened and fully observed, every index "
+         "mode x RWMode.", "PARTIAL as C14 for the runtime part; filesystem.CopyDir is trusted."),
  "C15": ("Rocq theorems on the Merge model (Merge.v): dead and uncommitted records are never rewritten; refused Merge is a no-op; key/value "
          "contents preserved by Merge (MergeFacts, see evidence for the exact statements). Tie: histories with Merge at arbitrary points, "
          "repeatedly, more writes, reopens, both RAM modes: impl = Merge model = L0 spec (Merge is the identity).",
